@@ -16,6 +16,13 @@
 //	     no crash) until its pc is `until` (after at least `min` attempts), it blocks, or `max` attempts;
 //	     "step" = one attempt, alt -1 = the branch that looks enabled
 //	{... "walk":{..., "frozen":[4],"frozen_n":80}}     processes that take no step during the first frozen_n walk steps
+//	{... "wiring":true}   deployment wiring mode: `fs` of every replica and `primary` of every replica / client are the VERY
+//	     resources systems/pbkvs/bootstrap wires up (getReplicaCtx / getClientCtx, through the add-only verif hooks
+//	     bootstrap.VerifReplicaCtx / VerifClientCtx and distsys.VerifArchetypeResource); network, fd, channels stay spec state.
+//	     fs: the archetype runs over the bootstrap's resource (tapped); "wiring" notes of a step report a read that did
+//	     not return the last value this replica committed for that key, a foreign index, a panic. primary: the deployed
+//	     leader-election resource is read next to the spec's mapping macro and a different answer is reported (the run goes on
+//	     with the spec's value). The reported fs components are the committed writes seen through the tap.
 //
 // One step = process p (1..nr replicas, nr+1..nr+nc clients) runs ONE attempt of its current label;
 // alt = branch dictated for the label's first `either`, fail = branch dictated for the mayFail either.
@@ -29,11 +36,15 @@ import (
 	"fmt"
 	"math/rand"
 	"os"
+	"sort"
 	"strings"
+	"time"
 
 	"github.com/DistCompiler/pgo/distsys"
 	"github.com/DistCompiler/pgo/distsys/tla"
 	"github.com/DistCompiler/pgo/systems/pbkvs"
+	"github.com/DistCompiler/pgo/systems/pbkvs/bootstrap"
+	"github.com/DistCompiler/pgo/systems/pbkvs/configs"
 
 	"verifharness/steplib"
 )
@@ -72,6 +83,9 @@ type kase struct {
 	Input  []inputMsg  `json:"input"`
 	Steps  [][]int     `json:"steps"`
 	Script []scriptOp  `json:"script"`
+	Wiring bool        `json:"wiring"`
+	Probe  bool        `json:"probe"`
+	Alive  []int       `json:"alive"`
 	Walk   *walkParams `json:"walk"`
 }
 
@@ -85,13 +99,16 @@ type stepOut struct {
 	Err   string                 `json:"err,omitempty"`
 	PC    string                 `json:"pc"`
 	D     map[string]interface{} `json:"d"`
+	Notes []string               `json:"wiring,omitempty"` // wiring mode: deviations of the bootstrap's resources seen in this attempt
 }
 
 type result struct {
-	ID    int                    `json:"id"`
-	Init  map[string]interface{} `json:"init"`
-	Steps []stepOut              `json:"steps"`
-	Err   string                 `json:"err"`
+	ID      int                    `json:"id"`
+	Init    map[string]interface{} `json:"init"`
+	Steps   []stepOut              `json:"steps"`
+	Err     string                 `json:"err"`
+	Probe   []string               `json:"probe,omitempty"`
+	Checked int                    `json:"checked,omitempty"`
 }
 
 func num(i int) tla.Value { return tla.MakeNumber(int32(i)) }
@@ -137,24 +154,169 @@ var networkToggle = steplib.Macro{
 var perfectFD = steplib.Identity
 var fileSystem = steplib.Identity
 
-var leaderElection = steplib.Macro{
-	Read: func(a *steplib.Access) (tla.Value, error) {
-		els := steplib.Elems(a.Var())
-		if len(els) == 0 {
-			return num(0), nil
+func specLeader(v tla.Value) tla.Value {
+	els := steplib.Elems(v)
+	if len(els) == 0 {
+		return num(0)
+	}
+	min := els[0]
+	for _, e := range els {
+		if e.AsNumber() < min.AsNumber() {
+			min = e
 		}
-		min := els[0]
-		for _, e := range els {
-			if e.AsNumber() < min.AsNumber() {
-				min = e
+	}
+	return min
+}
+
+// LeaderElection mapping macro; in wiring mode the deployed resource bound to `primary` is read as well
+func (s *system) leaderElection() steplib.Macro {
+	return steplib.Macro{
+		Read: func(a *steplib.Access) (tla.Value, error) {
+			spec := specLeader(a.Var())
+			if s.k.Wiring {
+				self := int(a.Self().AsNumber())
+				if res := s.donorPrimary[self]; res != nil {
+					dv, err := safeRead(res)
+					if err != nil {
+						s.note("primary:self=%d:deployed-read-failed:%v", self, err)
+					} else if !dv.Equal(spec) {
+						s.note("primary:self=%d:deployed=%v:spec=%v", self, dv, spec)
+					}
+				}
 			}
+			return spec, nil
+		},
+		Write: func(a *steplib.Access, val tla.Value) error {
+			a.SetVar(tla.ModuleBackslashSymbol(a.Var(), tla.MakeSet(val)))
+			return nil
+		},
+	}
+}
+
+func safeRead(res distsys.ArchetypeResource) (v tla.Value, err error) {
+	defer func() {
+		if r := recover(); r != nil {
+			err = fmt.Errorf("panic: %v", r)
 		}
-		return min, nil
-	},
-	Write: func(a *steplib.Access, val tla.Value) error {
-		a.SetVar(tla.ModuleBackslashSymbol(a.Var(), tla.MakeSet(val)))
-		return nil
-	},
+	}()
+	return res.ReadValue(distsys.ArchetypeInterface{})
+}
+
+// ---- wiring mode: a tap on the bootstrap's fs resource of one replica
+
+type fsWrite struct {
+	key string
+	val string
+}
+
+type fsTap struct {
+	s       *system
+	rep     int
+	donor   distsys.ArchetypeResource
+	pending []fsWrite
+}
+
+type fsTapSub struct {
+	top  *fsTap
+	path []tla.Value
+	sub  distsys.ArchetypeResource
+}
+
+func (t *fsTap) Abort(iface distsys.ArchetypeInterface) chan struct{} {
+	t.pending = nil
+	return t.donor.Abort(iface)
+}
+func (t *fsTap) PreCommit(iface distsys.ArchetypeInterface) chan error {
+	return t.donor.PreCommit(iface)
+}
+func (t *fsTap) Commit(iface distsys.ArchetypeInterface) chan struct{} {
+	for _, w := range t.pending {
+		if t.s.fsShadow[t.rep] == nil {
+			t.s.fsShadow[t.rep] = map[string]string{}
+		}
+		t.s.fsShadow[t.rep][w.key] = w.val
+	}
+	t.pending = nil
+	return t.donor.Commit(iface)
+}
+func (t *fsTap) ReadValue(iface distsys.ArchetypeInterface) (tla.Value, error) {
+	return t.donor.ReadValue(iface)
+}
+func (t *fsTap) WriteValue(iface distsys.ArchetypeInterface, v tla.Value) error {
+	return t.donor.WriteValue(iface, v)
+}
+func (t *fsTap) Close() error { return t.donor.Close() }
+func (t *fsTap) Index(iface distsys.ArchetypeInterface, idx tla.Value) (distsys.ArchetypeResource, error) {
+	return tapIndex(t, nil, t.donor, iface, idx)
+}
+
+func tapIndex(t *fsTap, path []tla.Value, res distsys.ArchetypeResource, iface distsys.ArchetypeInterface, idx tla.Value) (r distsys.ArchetypeResource, err error) {
+	defer func() {
+		if p := recover(); p != nil {
+			t.s.note("fs:replica=%d:index%v:panic:%v", t.rep, append(append([]tla.Value{}, path...), idx), p)
+			err = fmt.Errorf("bootstrap fs resource panicked on index %v: %v", idx, p)
+		}
+	}()
+	sub, err := res.Index(iface, idx)
+	if err != nil {
+		return nil, err
+	}
+	np := append(append([]tla.Value{}, path...), idx)
+	if len(np) == 1 && !(idx.IsNumber() && int(idx.AsNumber()) == t.rep) {
+		t.s.note("fs:replica=%d:foreign-index:%v", t.rep, idx)
+	}
+	return &fsTapSub{top: t, path: np, sub: sub}, nil
+}
+
+func (u *fsTapSub) Abort(iface distsys.ArchetypeInterface) chan struct{} { return u.sub.Abort(iface) }
+func (u *fsTapSub) PreCommit(iface distsys.ArchetypeInterface) chan error {
+	return u.sub.PreCommit(iface)
+}
+func (u *fsTapSub) Commit(iface distsys.ArchetypeInterface) chan struct{} { return u.sub.Commit(iface) }
+func (u *fsTapSub) Close() error                                          { return nil }
+func (u *fsTapSub) Index(iface distsys.ArchetypeInterface, idx tla.Value) (distsys.ArchetypeResource, error) {
+	return tapIndex(u.top, u.path, u.sub, iface, idx)
+}
+func (u *fsTapSub) expected() (string, bool) {
+	if len(u.path) != 2 || !u.path[1].IsString() {
+		return "", false
+	}
+	k := u.path[1].AsString()
+	for i := len(u.top.pending) - 1; i >= 0; i-- {
+		if u.top.pending[i].key == k {
+			return u.top.pending[i].val, true
+		}
+	}
+	return u.top.s.fsShadow[u.top.rep][k], true
+}
+func (u *fsTapSub) ReadValue(iface distsys.ArchetypeInterface) (tla.Value, error) {
+	v, err := u.sub.ReadValue(iface)
+	if err != nil {
+		return v, err
+	}
+	if exp, ok := u.expected(); ok {
+		if !v.IsString() || v.AsString() != exp {
+			u.top.s.note("fs:replica=%d:key=%s:read=%v:last-own-committed-write=%q", u.top.rep, u.path[1].AsString(), v, exp)
+		}
+	} else {
+		u.top.s.note("fs:replica=%d:read-at-unexpected-path:%v", u.top.rep, u.path)
+	}
+	return v, nil
+}
+func (u *fsTapSub) WriteValue(iface distsys.ArchetypeInterface, v tla.Value) error {
+	if err := u.sub.WriteValue(iface, v); err != nil {
+		return err
+	}
+	if len(u.path) == 2 && u.path[1].IsString() && v.IsString() {
+		u.top.pending = append(u.top.pending, fsWrite{u.path[1].AsString(), v.AsString()})
+	} else {
+		u.top.s.note("fs:replica=%d:write-at-unexpected-path:%v:%v", u.top.rep, u.path, v)
+	}
+	return nil
+}
+
+func (s *system) note(format string, args ...interface{}) {
+	s.notes = append(s.notes, fmt.Sprintf(format, args...))
 }
 
 var networkBufferLength = steplib.Macro{
@@ -187,6 +349,11 @@ type system struct {
 	prev    map[string]string // canonical text of every component
 	crashed map[int]bool
 	lastPC  map[int]string // pc of an archetype that has returned (failed assertion): it stays where it was
+	// wiring mode
+	keys         []string
+	fsShadow     map[int]map[string]string         // committed writes seen through the tap, per replica
+	donorPrimary map[int]distsys.ArchetypeResource // the bootstrap's `primary` resource of every process
+	notes        []string
 }
 
 func procName(p int) string { return fmt.Sprintf("p%d", p) }
@@ -217,9 +384,12 @@ func build(k kase) (*system, error) {
 		}
 	}
 	var keys []tla.Value
+	var keyNames []string
 	for kk := range keyset {
 		keys = append(keys, tla.MakeString(kk))
+		keyNames = append(keyNames, kk)
 	}
+	sort.Strings(keyNames)
 	sys := steplib.NewSystem(map[string]tla.Value{
 		"network":      tla.MakeRecord(netFields),
 		"fd":           steplib.ConstFn(reps, tla.ModuleFALSE),
@@ -234,27 +404,84 @@ func build(k kase) (*system, error) {
 		distsys.DefineConstantValue("EXPLORE_FAIL", tla.MakeBool(k.EF)),
 		distsys.DefineConstantValue("DEBUG", tla.ModuleFALSE),
 	}
+	s := &system{k: k, sys: sys, prev: map[string]string{}, crashed: map[int]bool{}, lastPC: map[int]string{},
+		keys: keyNames, fsShadow: map[int]map[string]string{}, donorPrimary: map[int]distsys.ArchetypeResource{}}
+	var root configs.Root
+	if k.Wiring {
+		root = configs.Root{NumReplicas: k.NR, NumClients: k.NC,
+			FD:        configs.FD{PullInterval: time.Hour, Timeout: 20 * time.Millisecond},
+			Mailboxes: configs.Mailboxes{ReceiveChanSize: 100, DialTimeout: 20 * time.Millisecond, ReadTimeout: 20 * time.Millisecond, WriteTimeout: 20 * time.Millisecond},
+			Replicas:  map[int]configs.Replica{}, Clients: map[int]configs.Client{}}
+		for r := 1; r <= k.NR; r++ {
+			root.Replicas[r] = configs.Replica{ReqMailboxAddr: "127.0.0.1:1", RespMailboxAddr: "127.0.0.1:1", MonitorAddr: "127.0.0.1:1"}
+		}
+		for c := 1; c <= k.NC; c++ {
+			root.Clients[c] = configs.Client{ReqMailboxAddr: "127.0.0.1:1", RespMailboxAddr: "127.0.0.1:1"}
+		}
+	}
 	for r := 1; r <= k.NR; r++ {
-		sys.AddProc(procName(r), num(r), pbkvs.AReplica, []steplib.Binding{
+		binds := []steplib.Binding{
 			{Param: "net", Var: "network", Depth: 1, Macro: reliableFIFOLink},
 			{Param: "fs", Var: "fs", Depth: 2, Macro: fileSystem},
 			{Param: "fd", Var: "fd", Depth: 1, Macro: perfectFD},
 			{Param: "netEnabled", Var: "network", Depth: 1, Macro: networkToggle},
-			{Param: "primary", Var: "primary", Depth: 0, Macro: leaderElection},
+			{Param: "primary", Var: "primary", Depth: 0, Macro: s.leaderElection()},
 			{Param: "netLen", Var: "network", Depth: 1, Macro: networkBufferLength},
-		}, consts...)
+		}
+		extra := append([]distsys.MPCalContextConfigFn{}, consts...)
+		if k.Wiring {
+			donor := bootstrap.VerifReplicaCtx(r, root)
+			if donor.Archetype().Name != pbkvs.AReplica.Name {
+				sys.Close()
+				return nil, fmt.Errorf("bootstrap built a context of %s for replica %d", donor.Archetype().Name, r)
+			}
+			fs := distsys.VerifArchetypeResource(donor, "&AReplica.fs")
+			pr := distsys.VerifArchetypeResource(donor, "&AReplica.primary")
+			if fs == nil || pr == nil {
+				sys.Close()
+				return nil, fmt.Errorf("bootstrap did not bind fs / primary for replica %d", r)
+			}
+			for _, h := range []string{"net", "fd", "netEnabled", "netLen"} {
+				if distsys.VerifArchetypeResource(donor, "&AReplica."+h) == nil {
+					sys.Close()
+					return nil, fmt.Errorf("bootstrap did not bind %s for replica %d", h, r)
+				}
+			}
+			s.donorPrimary[r] = pr
+			binds = append(binds[:1], binds[2:]...) // fs is the bootstrap's resource
+			extra = append(extra, distsys.EnsureArchetypeRefParam("fs", &fsTap{s: s, rep: r, donor: fs}))
+		}
+		sys.AddProc(procName(r), num(r), pbkvs.AReplica, binds, extra...)
 	}
 	for c := k.NR + 1; c <= nn; c++ {
+		if k.Wiring {
+			donor := bootstrap.VerifClientCtx(c-k.NR, root, make(chan tla.Value), make(chan tla.Value))
+			if donor.Archetype().Name != pbkvs.AClient.Name || !donor.IFace().Self().Equal(num(c)) {
+				sys.Close()
+				return nil, fmt.Errorf("bootstrap built a context of %s with self %v for client %d", donor.Archetype().Name, donor.IFace().Self(), c)
+			}
+			pr := distsys.VerifArchetypeResource(donor, "&AClient.primary")
+			if pr == nil {
+				sys.Close()
+				return nil, fmt.Errorf("bootstrap did not bind primary for client %d", c)
+			}
+			for _, h := range []string{"net", "fd", "netLen", "input", "output"} {
+				if distsys.VerifArchetypeResource(donor, "&AClient."+h) == nil {
+					sys.Close()
+					return nil, fmt.Errorf("bootstrap did not bind %s for client %d", h, c)
+				}
+			}
+			s.donorPrimary[c] = pr
+		}
 		sys.AddProc(procName(c), num(c), pbkvs.AClient, []steplib.Binding{
 			{Param: "net", Var: "network", Depth: 1, Macro: reliableFIFOLink},
 			{Param: "fd", Var: "fd", Depth: 1, Macro: perfectFD},
-			{Param: "primary", Var: "primary", Depth: 0, Macro: leaderElection},
+			{Param: "primary", Var: "primary", Depth: 0, Macro: s.leaderElection()},
 			{Param: "netLen", Var: "network", Depth: 1, Macro: networkBufferLength},
 			{Param: "input", Var: "clientInput", Depth: 0, Macro: channel},
 			{Param: "output", Var: "clientOutput", Depth: 0, Macro: steplib.Identity},
 		}, consts...)
 	}
-	s := &system{k: k, sys: sys, prev: map[string]string{}, crashed: map[int]bool{}, lastPC: map[int]string{}}
 	if err := sys.Start(); err != nil {
 		sys.Close()
 		return nil, err
@@ -277,7 +504,15 @@ func (s *system) components() map[string]interface{} {
 	out["primary"] = steplib.Enc(st.Get("primary"))
 	fs := st.Get("fs")
 	for r := 1; r <= s.k.NR; r++ {
-		out[fmt.Sprintf("fs:%d", r)] = steplib.Enc(fs.ApplyFunction(num(r)))
+		if s.k.Wiring {
+			var fields []tla.RecordField
+			for _, kk := range s.keys {
+				fields = append(fields, tla.RecordField{Key: tla.MakeString(kk), Value: tla.MakeString(s.fsShadow[r][kk])})
+			}
+			out[fmt.Sprintf("fs:%d", r)] = steplib.Enc(tla.MakeRecord(fields))
+		} else {
+			out[fmt.Sprintf("fs:%d", r)] = steplib.Enc(fs.ApplyFunction(num(r)))
+		}
 	}
 	out["cin"] = steplib.Enc(st.Get("clientInput"))
 	out["cout"] = steplib.Enc(st.Get("clientOutput"))
@@ -360,7 +595,9 @@ var failIDs = map[string]bool{"AReplica.replicaLoop.0": true, "AReplica.sndSyncR
 func (s *system) step(p, alt, fail int) stepOut {
 	name := procName(p)
 	so := stepOut{P: p, Alt: alt, Fail: fail}
+	s.notes = nil
 	obs := s.sys.Step(name, s.choices(p, alt, fail))
+	so.Notes = s.notes
 	so.Label, so.Out, so.Err, so.PC = label(obs.Label), obs.Outcome, obs.Err, label(obs.PC)
 	// report the branches the generated code actually took
 	for _, c := range obs.Choices {
@@ -641,7 +878,11 @@ func main() {
 			fmt.Fprintln(os.Stderr, "bad case:", err)
 			os.Exit(2)
 		}
-		enc.Encode(runCase(k))
+		if k.Probe {
+			enc.Encode(runProbe(k))
+		} else {
+			enc.Encode(runCase(k))
+		}
 		out.Flush()
 	}
 }
